@@ -1466,10 +1466,16 @@ class Gen:
         pth = _strip_ptr(a_hdr)
         if pth is None or f.lookup(pth[1])[0] != "arrptr":
             raise TranslationError("%s: the header argument of the core call must be the taken array" % f.name)
+        a0 = arms[0][0] if arms else None
         if len(arms) != 2 or arms[0][1] is not None or arms[1][1] is not None \
-                or arms[0][0] != ("pts", "Ok", [("pts", "Status::Complete", [("pbind", "idx", False, None)])]) \
+                or not (a0[0] == "pts" and a0[1] == "Ok" and len(a0[2]) == 1 and a0[2][0][0] == "pts"
+                        and a0[2][0][1] == "Status::Complete" and len(a0[2][0][2]) == 1
+                        and a0[2][0][2][0][0] == "pbind" and a0[2][0][2][0][3] is None) \
                 or arms[1][0][0] != "pbind" or arms[1][0][3] is not None:
             raise TranslationError("%s: core call match arms" % f.name)
+        # the two binders are local to the arms: whatever they are called in the source, the generated text calls
+        # them `idx` and `other`
+        idx_src = a0[2][0][2][0][1]
         other = arms[1][0][1]
         bodies = []
         for a in arms:
@@ -1482,19 +1488,19 @@ class Gen:
         l, r = f.gensym("l"), f.gensym("r")
         init = "(fun l0 => %s_init %s)" % (core, " ".join("(%s_%s l0)" % (cn, fl) for fl in fields))
         fin = "(fun lh _ => mk%s %s)" % (f.L(), " ".join("(%s_%s lh)" % (core, fl) for fl in fields))
-        f.scopes.append({"idx": ("imm", "idx", "usize")})
+        f.scopes.append({idx_src: ("imm", "idx", "usize")})
         try:
             b0 = f.result(*bodies[0])
         finally:
             f.scopes.pop()
-        f.scopes.append({other: ("imm", cid(other), "res_usize")})
+        f.scopes.append({other: ("imm", "other", "res_usize")})
         try:
             b1 = f.result(*bodies[1])
         finally:
             f.scopes.pop()
         return ("%s <~ iget ;; %s ;;~ %s <~ isub_catch (%s_body config buf) %s %s ;; "
                 "match %s with RComplete idx => %s | %s => %s end") % (
-            l, f.setter("v_headers", "(%s_v_mem %s)" % (cn, l)), r, core, init, fin, r, b0, cid(other), b1)
+            l, f.setter("v_headers", "(%s_v_mem %s)" % (cn, l)), r, core, init, fin, r, b0, "other", b1)
 
     HCFG_FIELDS = ["allow_spaces_after_header_name", "allow_obsolete_multiline_headers",
                    "allow_space_before_first_header_name", "ignore_invalid_headers"]
@@ -1823,7 +1829,17 @@ def generate_delegations(g):
             if sorted(env.values()) != sorted(roles):
                 raise TranslationError("two parameters of one role")
             blk = rsparse.RParser(body).parse_block_body(None)
-            if blk[1] or blk[2] is None or blk[2][0] != "mcall":
+            # `let c = ParserConfig::default();` before the call names the default configuration
+            lets = {}
+            for st in blk[1]:
+                if st[0] == "let" and st[1][0] == "pbind" and st[1][3] is None and st[3] is not None \
+                        and st[3][0] == "call" and st[3][1][0] == "path" and not st[3][2] \
+                        and st[3][1][1] in ("Default::default", "ParserConfig::default") \
+                        and (st[2] is None or (st[2] if isinstance(st[2], str) else norm(st[2])) == "ParserConfig"):
+                    lets[st[1][1]] = "config_default"
+                else:
+                    raise TranslationError("statement before the delegating call: " + repr(st)[:80])
+            if blk[2] is None or blk[2][0] != "mcall":
                 raise TranslationError("not a one-expression delegation")
             _, recv, callee, args = blk[2]
             if recv[0] != "path" or env.get(recv[1]) != "v":
@@ -1832,6 +1848,8 @@ def generate_delegations(g):
             def arg_term(a):
                 if a[0] == "path" and a[1] in env and env[a[1]] != "v":
                     return env[a[1]], {"cf": "cf", "buf": "buf", "arr": "arr"}[env[a[1]]]
+                if a[0] == "ref" and not a[1] and a[2][0] == "path" and a[2][1] in lets:
+                    return "cf", lets[a[2][1]]
                 if a[0] == "ref" and not a[1] and a[2][0] == "call" and a[2][1][0] == "path" and not a[2][2] \
                         and a[2][1][1] in ("Default::default", "ParserConfig::default"):
                     return "cf", "config_default"
